@@ -115,6 +115,10 @@ def run_worker(ops, hashseed, tmp_name, rate):
         ops2.append(o)
     env = dict(os.environ)
     env["PYTHONHASHSEED"] = str(hashseed)
+    # the process environment is part of the schedule: a session temp dir as batch systems set it (no trailing slash)
+    env.pop("TMPDIR", None)
+    if tmp_name not in ("t", "u1"):
+        env["TMPDIR"] = "/scratch/job_" + tmp_name
     env["PYTHONPATH"] = VERIF
     p = subprocess.run([sys.executable, "-W", "ignore", "-m", "gsim.hashworker"], input=json.dumps(ops2).encode(),
                        stdout=subprocess.PIPE, stderr=subprocess.DEVNULL, env=env, cwd=VERIF, timeout=1500)
